@@ -162,6 +162,14 @@ CHECKS = {
    note="NOT decided: that the lookup thresholds partition [0,1] in proportion to the rates (dynamics of the priority-queue "
         "construction), uniformity of the random numbers, the physical sign convention of the field term (the code's dG = (E1-E2) + q R.F "
         "is taken as the definition). xtp is parsed, not built."),
+ "C17": dict(cat="other", ref="DESIGN.md section 4 C17",
+   technique="enumerator-to-open-mode table from the constructor's switch, CFG required-edge for the read-only guard, sibling agreement of writer/reader overload kinds and of the matrix hyperslab parameters, try/catch shape of every public operator(), handler-effect rule for names that already exist",
+   text="Decides the structural clauses: access levels map to the right HDF5 modes and a read-only file cannot hand out a writer; every "
+        "value kind the writer stores has a reader; the matrix writer and reader use identical hyperslab selections and transfer "
+        "spaces (so the stored layout is the read layout for every shape); reading a missing name or any HDF5 failure becomes a thrown "
+        "std::runtime_error; re-writing an existing name unlinks and re-creates the object (so the old value is replaced for any new shape).",
+   note="Not decided: HDF5's behaviour, bit-identity of the transferred values, non-ASCII strings, the table-row (checkpointtable.h) path. "
+        "xtp is parsed, not built; the overwrite defect was replayed with a stand-alone harness (replays/C17_overwrite.cc) and fixed."),
 }
 NA = {
 }
